@@ -23,6 +23,34 @@ type end struct {
 	closeW func() error // half close of this side's write direction
 }
 
+// oplog keeps the first and the last operations of a task (the ones next to a violation are the last).
+type oplog struct {
+	head, tail []string
+	dropped    int
+}
+
+func (l *oplog) addf(format string, a ...any) {
+	s := fmt.Sprintf(format, a...)
+	if len(l.head) < 8 {
+		l.head = append(l.head, s)
+		return
+	}
+	if len(l.tail) == 24 {
+		copy(l.tail, l.tail[1:])
+		l.tail = l.tail[:23]
+		l.dropped++
+	}
+	l.tail = append(l.tail, s)
+}
+
+func (l *oplog) lines() []string {
+	out := append([]string(nil), l.head...)
+	if l.dropped > 0 {
+		out = append(out, fmt.Sprintf("... (%d operations omitted)", l.dropped))
+	}
+	return append(out, l.tail...)
+}
+
 // chanState is one (stream, direction): a writer task on one side, a reader task on the other.
 type chanState struct {
 	w      *world
@@ -39,38 +67,32 @@ type chanState struct {
 	wErr      string       // kind of the error that ended the writer ("" = none)
 	wErrText  string
 	wStarted  bool
-	wDone     bool
+	wDone     atomic.Bool
 
 	// reader side
-	off        int // bytes delivered so far
-	reads      int
-	dataReads  int
-	zeroRun    int
-	timeouts   int
-	hadTimeout bool
-	noDeadline bool
-	rEnd       string // "", "eof", "gave-up", "violation", "error:<kind>"
-	rErrText   string
-	eofClosing bool // writer had begun closing when EOF was seen
-	rStarted   bool
-	rDone      bool
-	prevEdge1  bool // previous read was a 1-byte read that consumed the last byte of a (notional) frame
+	off          int // bytes delivered so far
+	reads        int
+	dataReads    int
+	zeroRun      int
+	timeouts     int
+	hadTimeout   bool
+	noDeadline   bool
+	rEnd         string // "", "eof", "gave-up", "violation", "error:<kind>"
+	rErrText     string
+	eofClosing   bool // the writer had begun closing when EOF was seen
+	eofOff       int  // bytes delivered when EOF was seen
+	eofWithData  bool // the call that returned io.EOF also returned data
+	afterEOFData int  // bytes returned by reads after EOF
+	afterEOFGood bool // ... and they were the correct continuation
+	rStarted     bool
+	rDone        atomic.Bool
+	desync       bool // observation: this reader lost its place after a read deadline (pnet), not judged further
+	prevEdge1    bool // previous read was a 1-byte read that consumed the last byte of a (notional) frame
 
 	wviol, rviol []common.Violation // writer / reader task each own one (they may run at the same instant)
-	wlog, rlog   []string
+	wlog, rlog   oplog
 	arena        []byte
 }
-
-func logTo(l *[]string, format string, a ...any) {
-	if len(*l) < 40 {
-		*l = append(*l, fmt.Sprintf(format, a...))
-	} else if len(*l) == 40 {
-		*l = append(*l, "...")
-	}
-}
-
-func (c *chanState) wlogf(format string, a ...any) { logTo(&c.wlog, format, a...) }
-func (c *chanState) rlogf(format string, a ...any) { logTo(&c.rlog, format, a...) }
 
 func (c *chanState) wviolate(class, format string, a ...any) {
 	c.wviol = append(c.wviol, common.Violation{Class: class, Detail: c.id + ": " + fmt.Sprintf(format, a...)})
@@ -79,11 +101,14 @@ func (c *chanState) violate(class, format string, a ...any) {
 	c.rviol = append(c.rviol, common.Violation{Class: class, Detail: c.id + ": " + fmt.Sprintf(format, a...)})
 }
 
-// suffix of data-fidelity classes: what had happened to this run / reader before (keeps findings apart).
+// ctx is the suffix of violation classes: what had happened to this run / reader before (keeps findings apart).
 func (c *chanState) ctx() string {
 	s := ""
 	if c.w.mitm != nil && c.w.mitm.fired.Load() {
 		s += "/after-tamper"
+	}
+	if c.w.peerClosed.Load() {
+		s += "/after-peer-close"
 	}
 	if c.hadTimeout {
 		s += "/after-timeout"
@@ -91,23 +116,28 @@ func (c *chanState) ctx() string {
 	return s
 }
 
+// errKind: "eof" is io.EOF ITSELF. The io package documents that Read must return EOF itself, not an error
+// wrapping EOF, because callers test for it with ==; an error that merely wraps io.EOF (yamux: "stream reset:
+// connection closed: EOF", pnet: "could not read full nonce: EOF") is an error to every such caller.
 func errKind(err error) string {
 	var ne net.Error
 	switch {
 	case err == nil:
 		return "nil"
-	case errors.Is(err, io.EOF):
+	case err == io.EOF:
 		return "eof"
-	case errors.Is(err, io.ErrUnexpectedEOF):
-		return "unexpected-eof"
 	case errors.As(err, &ne) && ne.Timeout():
 		return "timeout"
 	case errors.Is(err, network.ErrReset):
 		return "reset"
+	case errors.Is(err, io.ErrUnexpectedEOF):
+		return "unexpected-eof"
 	case errors.Is(err, net.ErrClosed):
 		return "closed"
 	case errors.Is(err, syscall.ECONNRESET), errors.Is(err, syscall.EPIPE):
 		return "conn-reset"
+	case errors.Is(err, io.EOF):
+		return "wrapped-eof"
 	}
 	return "error"
 }
@@ -150,7 +180,7 @@ func (c *chanState) resolve(b bufSpec) int {
 	if size < 1 {
 		size = 1
 	}
-	if c.w.p.mode != simnet.Tiny { // not Tiny: the payload can be large
+	if c.w.p.mode != simnet.Tiny { // the payload can be large
 		if size < 256 && c.reads >= tinyBudget {
 			size += 8192
 		} else if size < 4096 && c.reads >= midBudget {
@@ -169,7 +199,7 @@ func slackByte(i int) byte { return 0x5a ^ byte(i*7) }
 func (c *chanState) writer(e *end) {
 	w := c.w
 	defer func() {
-		c.wDone = true
+		c.wDone.Store(true)
 		w.taskDone()
 	}()
 	simrt.Recv("gate", w.gate)
@@ -185,7 +215,7 @@ func (c *chanState) writer(e *end) {
 		n, err := e.rw.Write(buf)
 		s1 := simrt.Stamp()
 		w.progress.Add(1)
-		c.wlogf("[%d..%d] Write(%d bytes @%d) = %d, %s", s0, s1, sz, pos, n, errKind(err))
+		c.wlog.addf("[%d..%d] Write(%d bytes @%d) = %d, %s", s0, s1, sz, pos, n, errKind(err))
 		if string(buf) != string(c.t.exp[pos:pos+sz]) {
 			copy(buf, c.t.exp[pos:pos+sz])
 			c.wviolate("C02/write-modified-buffer/"+w.layer(), "Write(%d bytes at offset %d) changed the caller's buffer", sz, pos)
@@ -215,7 +245,7 @@ func (c *chanState) writer(e *end) {
 	s0 := simrt.Stamp()
 	err := e.closeW()
 	w.progress.Add(1)
-	c.wlogf("[%d..%d] CloseWrite() = %s", s0, simrt.Stamp(), errKind(err))
+	c.wlog.addf("[%d..%d] CloseWrite() = %s", s0, simrt.Stamp(), errKind(err))
 	if err != nil {
 		c.wErr, c.wErrText = "close-"+errKind(err), err.Error()
 	}
@@ -225,7 +255,7 @@ func (c *chanState) writer(e *end) {
 func (c *chanState) reader(e *end) {
 	w := c.w
 	defer func() {
-		c.rDone = true
+		c.rDone.Store(true)
 		w.taskDone()
 	}()
 	simrt.Recv("gate", w.gate)
@@ -233,6 +263,9 @@ func (c *chanState) reader(e *end) {
 	lay := w.layer()
 	if c.arena == nil {
 		c.arena = w.arena(c.stream*2 + c.dir)
+	}
+	if p.startDelay > 0 {
+		simrt.TimeSleep(p.startDelay)
 	}
 	for i := 0; ; i++ {
 		spec := p.bufs[i%len(p.bufs)]
@@ -260,7 +293,7 @@ func (c *chanState) reader(e *end) {
 		c.reads++
 		kind := errKind(err)
 		if n != 0 || err != nil || c.zeroRun == 0 {
-			c.rlogf("[%d..%d] Read(buf %d, cap %d) @%d = %d, %s", s0, s1, size, len(full), startOff, n, kind)
+			c.rlog.addf("[%d..%d] Read(buf %d, cap %d) @%d = %d, %s", s0, s1, size, len(full), startOff, n, kind)
 		}
 		// --- oracles on this call ---
 		if n < 0 || n > size {
@@ -276,21 +309,11 @@ func (c *chanState) reader(e *end) {
 			}
 		}
 		if n > 0 {
-			if int64(startOff+n) > c.attempted.Load() {
-				c.violate("C02/more-than-written/"+lay+c.ctx(), "Read returned %d bytes at offset %d but only %d bytes had been handed to Write", n, startOff, c.attempted.Load())
+			if !c.checkData(buf[:n], startOff, size) {
 				c.rEnd = "violation"
-				return
-			}
-			exp := c.t.exp[startOff : startOff+n]
-			if string(buf[:n]) != string(exp) {
-				k := 0
-				for buf[k] == exp[k] {
-					k++
+				if c.desync {
+					c.rEnd = "desync-after-deadline"
 				}
-				c.violate("C02/wrong-bytes/"+lay+c.ctx(),
-					"Read #%d (buffer %d) returned %d bytes for offsets %d..%d; first wrong byte at stream offset %d (call-relative %d): got %#02x want %#02x; the bytes from there %s",
-					c.reads, size, n, startOff, startOff+n-1, startOff+k, k, buf[k], exp[k], locate(w.p, buf[k:n]))
-				c.rEnd = "violation"
 				return
 			}
 			c.off += n
@@ -315,6 +338,8 @@ func (c *chanState) reader(e *end) {
 		case "eof":
 			c.rEnd = "eof"
 			c.eofClosing = c.closing.Load()
+			c.eofOff = c.off
+			c.eofWithData = n > 0
 			c.afterEOF(e)
 			return
 		case "timeout":
@@ -350,6 +375,37 @@ func (c *chanState) reader(e *end) {
 	}
 }
 
+// checkData: the bytes just read continue the planned stream at offset off, and had been handed to Write.
+func (c *chanState) checkData(got []byte, off, size int) bool {
+	w := c.w
+	lay := w.layer()
+	n := len(got)
+	if int64(off+n) > c.attempted.Load() {
+		c.violate("C02/more-than-written/"+lay+c.ctx(), "Read returned %d bytes at offset %d but only %d bytes had been handed to Write", n, off, c.attempted.Load())
+		return false
+	}
+	exp := c.t.exp[off : off+n]
+	if string(got) != string(exp) {
+		k := 0
+		for got[k] == exp[k] {
+			k++
+		}
+		if c.hadTimeout && w.p.layer == layPnet {
+			// observation, not an oracle: see desyncProbe in sim_test.go (the PSK stream cipher is not authenticated,
+			// so a nonce taken from the wrong place shows up as garbage; on Noise the AEAD turns it into an error)
+			w.probe(desyncProbe + lay + "/wrong-bytes")
+			c.rlog.addf("OBSERVATION after %d read timeouts: wrong byte at stream offset %d (got %#02x want %#02x)", c.timeouts, off+k, got[k], exp[k])
+			c.desync = true
+			return false
+		}
+		c.violate("C02/wrong-bytes/"+lay+c.ctx(),
+			"Read #%d (buffer %d) returned %d bytes for offsets %d..%d; first wrong byte at stream offset %d (call-relative %d): got %#02x want %#02x; the bytes from there %s",
+			c.reads, size, n, off, off+n-1, off+k, k, got[k], exp[k], locate(w.p, got[k:]))
+		return false
+	}
+	return true
+}
+
 // afterEOF: further reads keep returning an error and never data.
 func (c *chanState) afterEOF(e *end) {
 	w := c.w
@@ -362,10 +418,26 @@ func (c *chanState) afterEOF(e *end) {
 		s0 := simrt.Stamp()
 		n, err := e.rw.Read(buf)
 		w.progress.Add(1)
-		c.rlogf("[%d..%d] Read(buf 16) after EOF = %d, %s", s0, simrt.Stamp(), n, errKind(err))
-		if n != 0 {
-			c.violate("C02/data-after-eof/"+w.layer()+c.ctx(), "Read #%d after EOF at offset %d returned %d bytes (%s)", k+1, c.off, n, errKind(err))
+		c.rlog.addf("[%d..%d] Read(buf 16) after EOF @%d = %d, %s", s0, simrt.Stamp(), c.off, n, errKind(err))
+		if n < 0 || n > 16 {
+			c.violate("C02/read-count-out-of-range/"+w.layer()+c.ctx(), "Read after EOF with a 16-byte buffer returned n=%d", n)
 			return
+		}
+		if n != 0 {
+			// judged at the end of the run (premature EOF or data after the end)
+			good := int64(c.off+n) <= c.attempted.Load() && string(buf[:n]) == string(c.t.exp[c.off:c.off+n])
+			if c.afterEOFData == 0 {
+				c.afterEOFGood = good
+			} else {
+				c.afterEOFGood = c.afterEOFGood && good
+			}
+			c.afterEOFData += n
+			if good {
+				c.off += n
+			} else {
+				return
+			}
+			continue
 		}
 		w.probe("read-after-eof")
 	}
